@@ -99,6 +99,9 @@ pub fn check_spec(id: &str) -> Option<CheckSpec> {
         lane("conc/sync/liveness/no-faults", conc("sync-live-nf", |p| { p.asyncness = 0; p.cancel = false; p.hold_open_pct = 60; p.faults = false; }), 200_000, 6_000_000),
         // multi-producer bounded flavours only: claim / overshoot / credit-window races need producers that collide
         lane("conc/sync/liveness/bounded-contention", conc("sync-live-bc", |p| { p.asyncness = 0; p.cancel = false; p.hold_open_pct = 60; p.flavours = vec![Flavour::MpscBounded, Flavour::MpmcBounded]; }), 300_000, 9_000_000),
+        // the bare register / re-check / park vs publish / notify handshake on a channel that is full or empty
+        // most of the time (capacity 1-2, blocking single-item forms only)
+        lane("conc/sync/liveness/tight-handshake", conc("sync-live-tight", |p| { p.asyncness = 0; p.cancel = false; p.lifecycle = false; p.hold_open_pct = 30; p.caps = vec![1, 1, 2]; p.blocking_only = true; p.flavours = vec![Flavour::SpscBounded, Flavour::MpscBounded, Flavour::MpmcBounded, Flavour::SpscRendezvous, Flavour::MpscRendezvous, Flavour::MpmcRendezvous]; }), 300_000, 9_000_000),
         lane("spmc/sync/liveness", spmc(true, 0, false, true), 150_000, 4_500_000),
         lane("topic/sync/liveness", topic(true, 0, false, true, true), 100_000, 3_000_000),
       ],
